@@ -95,17 +95,17 @@ def _wrapped_buffer_window(buffer, start_pos, end_pos, force_copy=True):
         if start_pos < end_pos:
             return deepcopy(buffer[start_pos:end_pos])
         if isinstance(buffer, list):
-            return buffer[start_pos:] + buffer[0:end_pos]
+            return buffer[start_pos:] + buffer[:end_pos]
         if end_pos <= 0:
             return deepcopy(buffer[start_pos:])
-        return np.concatenate((buffer[start_pos:], buffer[0:end_pos]))
+        return np.concatenate((buffer[start_pos:], buffer[:end_pos]))
     if start_pos < end_pos:
         return buffer[start_pos:end_pos]
     if isinstance(buffer, list):
-        return buffer[start_pos:] + buffer[0:end_pos]
+        return buffer[start_pos:] + buffer[:end_pos]
     if end_pos <= 0:
         return buffer[start_pos:]
-    return np.concatenate((buffer[start_pos:], buffer[0:end_pos]))
+    return np.concatenate((buffer[start_pos:], buffer[:end_pos]))
 """
 
 SK_OLDEST_TS = """
